@@ -4,6 +4,8 @@ import N0Verif.Proofs.XPathPureInfix
 import N0Verif.Proofs.XPathPureDiverge
 import N0Verif.Proofs.XPathTok
 import N0Verif.Proofs.XPathTermApi
+import N0Verif.Proofs.XPathFirst
+import N0Verif.Proofs.XPathUpRoot
 /-!
 # C04 — lookups are total and pure: a miss yields the default, never a change
 
@@ -46,26 +48,48 @@ theorem C04_default_iff_miss (fuel : Nat) (cls : Cls) (kvs : List (Str × Val)) 
     | some v => simp
     | none => simp [caught]
 
-/-- the same equation for `first`, which additionally unwraps a single match -/
-def unwrap1 : Val → Val
-  | .list _ [x] => x
-  | v => v
-
+/-- **`first`** (fix C04-f) looks the path up with a private marker object as default — `getCoreS`, the same
+transcription of `_get` as `getCore` (`C04_marker_lookup`) with `none` for "the marker came back" — and returns the
+caller's default **as it is** when the marker comes back; only a found value is unwrapped (`unwrap1`: a one-element
+list is replaced by its element). -/
 theorem C04_first_eq (fuel : Nat) (t : Val) (s : Str) (d : Val) :
     first fuel t s d =
-      (match getCore fuel t s d false false with
-       | (t', .ok v) => (t', .ok (unwrap1 v))
+      (match getCoreS fuel t s false false with
+       | (t', .ok (some v)) => (t', .ok (unwrap1 v))
+       | (t', .ok Option.none) => (t', .ok d)
        | (t', .error e) => (t', .error e)) := by
-  unfold first
-  cases h : getCore fuel t s d false false with
-  | mk t' res =>
-    cases res with
-    | error e => rfl
-    | ok v => cases v <;> try rfl
-              rename_i c xs
-              cases xs with
-              | nil => rfl
-              | cons x xs => cases xs <;> rfl
+  rw [first_def]
+  rcases getCoreS fuel t s false false with ⟨t', (e | (_ | v))⟩ <;> rfl
+
+/-- the lookup with the marker is the ordinary lookup: `_get … if_not_found=d` returns what the marker lookup returns,
+with the marker replaced by `d` — every root, path, default, `raise_exception`, `return_lists` -/
+theorem C04_marker_lookup (fuel : Nat) (t : Val) (s : Str) (d : Val) (raise rl : Bool) :
+    getCore fuel t s d raise rl =
+      ((getCoreS fuel t s raise rl).1,
+       match (getCoreS fuel t s raise rl).2 with
+       | .ok o => .ok (o.getD d)
+       | .error e => .error e) :=
+  first_getCoreS_spec fuel t s d raise rl
+
+/-- **The caller's default comes back exactly as it is** (dict or list root, no `?` prefix): when the path does not
+resolve — the lookup `first` performs (`return_lists=False`), asked to raise, raises one of the funnelled classes or
+the `KeyError` of a plain missing key — `first` returns `d` itself, WHATEVER value `d` is: a one-element list
+`['D']`, `[None]`, `[[]]` included (before fix C04-f those came back as `'D'`, `None`, `[]`).  The tree is the one
+the lookup returns (`C04_pure_all`: the tree given). -/
+theorem C04_first_default_identity (fuel : Nat) (t : Val) (s : Str) (d : Val) (e : PyErr)
+    (hq : startsWith s ['?'] = false)
+    (hmiss : (getCore fuel t s Val.none true false).2 = .error e)
+    (he : (caught e || (e = .KeyError && !hasPathChar s)) = true) :
+    first fuel t s d = ((getCore fuel t s Val.none true false).1, .ok d) :=
+  first_miss_identity fuel t s d Val.none e hq hmiss he
+
+/-- … and **exactly** then: when the same lookup resolves to `v`, `first` returns `unwrap1 v` for every default — the
+default plays no part in a hit (also when `v` happens to equal it) -/
+theorem C04_first_hit (fuel : Nat) (t : Val) (s : Str) (d v : Val)
+    (hq : startsWith s ['?'] = false) (hne : s ≠ [])
+    (hhit : (getCore fuel t s Val.none true false).2 = .ok v) :
+    first fuel t s d = ((getCore fuel t s Val.none true false).1, .ok (unwrap1 v)) :=
+  first_hit fuel t s d Val.none v hq hne hhit
 
 /-- **`?`-prefixed paths**: item access does not raise any of the funnelled classes (a miss
 yields `''`), and a plain missing key yields `''` as well (dict root) -/
@@ -217,12 +241,8 @@ theorem C04_pure_partial (fuel : Nat) (t : Val) (s : Str) (d : Val) (hs : Safe s
     (XPath.get fuel t s d).1 = t ∧ (getItem fuel t s).1 = t ∧ (first fuel t s d).1 = t := by
   refine ⟨(getCore_safe (P := NoNew) fuel t s d false true hs ht).1,
           (getCore_safe (P := NoNew) fuel t s Val.none true true hs ht).1, ?_⟩
-  rw [C04_first_eq]
-  have := (getCore_safe (P := NoNew) fuel t s d false false hs ht).1
-  cases h : getCore fuel t s d false false with
-  | mk t' res =>
-    rw [h] at this
-    cases res <;> exact this
+  rw [first_fst]
+  exact (getCore_safe (P := NoNew) fuel t s d false false hs ht).1
 
 /-- **Totality (partial: no `new()` in the path or in a key).**  `get` and `first` return
 normally: no Python exception class escapes.  The only other outcomes are the model's own
@@ -241,17 +261,13 @@ theorem C04_get_total_partial (fuel : Nat) (t : Val) (s : Str) (d : Val) (hs : S
       · cases hf
       · exact ⟨e, rfl, hm⟩
   · have h := (getCore_safe (P := NoNew) fuel t s d false false hs ht).2
-    rw [C04_first_eq]
-    cases hc : getCore fuel t s d false false with
-    | mk t' res =>
-      rw [hc] at h
-      cases res with
-      | ok v => exact Or.inl ⟨_, rfl⟩
-      | error e =>
-        right
-        rcases h e rfl with ⟨hf, _⟩ | hm
-        · cases hf
-        · exact ⟨e, rfl, hm⟩
+    cases hc : (getCore fuel t s d false false).2 with
+    | ok v => exact Or.inl (first_ok_of_getCore fuel t s d v hc)
+    | error e =>
+      right
+      rcases h e hc with ⟨hf, _⟩ | hm
+      · cases hf
+      · exact ⟨e, (first_error_iff fuel t s d e).2 hc, hm⟩
 
 /-- **Item access raises only the allowed classes (partial).**  Besides the model-only
 outcomes, item access raises one of KeyError/IndexError/ValueError/TypeError/SyntaxError, and
@@ -322,14 +338,8 @@ theorem C04_fuel_bound (t : Val) (s : Str) (ht : PlainTree t) (fuel : Nat) (hf :
     (XPath.get fuel t s d).2 ≠ .error .OutOfFuel ∧ (getItem fuel t s).2 ≠ .error .OutOfFuel ∧
     (first fuel t s d).2 ≠ .error .OutOfFuel := by
   refine ⟨term_getCore fuel t s d false true ht hf, term_getCore fuel t s Val.none true true ht hf, ?_⟩
-  rw [C04_first_eq]
-  have := term_getCore fuel t s d false false ht hf
-  cases h : getCore fuel t s d false false with
-  | mk t' res =>
-    rw [h] at this
-    cases res with
-    | ok v => simp
-    | error e => simpa using this
+  intro h
+  exact term_getCore fuel t s d false false ht hf ((first_error_iff fuel t s d _).1 h)
 
 /-- **Termination**: the search ends — for every tree with plain-name keys and every string there is a
 fuel from which on the model never answers `OutOfFuel` (the hypothesis `Safe s` of the statement is not
@@ -402,12 +412,8 @@ not; well-formed path or not; with or without a `new()` step). -/
 theorem C04_pure_all (fuel : Nat) (t : Val) (s : Str) (d : Val) :
     (XPath.get fuel t s d).1 = t ∧ (getItem fuel t s).1 = t ∧ (first fuel t s d).1 = t := by
   refine ⟨(getCore_any fuel t s d false true).1, (getCore_any fuel t s Val.none true true).1, ?_⟩
-  rw [C04_first_eq]
-  have := (getCore_any fuel t s d false false).1
-  cases h : getCore fuel t s d false false with
-  | mk t' res =>
-    rw [h] at this
-    cases res <;> exact this
+  rw [first_fst]
+  exact (getCore_any fuel t s d false false).1
 
 /-- the dict-side resolver itself returns the tree it was given — every token list, also with `new()` -/
 theorem C04_findD_pure (fuel : Nat) (root : Val) (sp : Pos) (entry rl : Bool) (toks : List Str) (par : PRef)
@@ -434,17 +440,13 @@ theorem C04_get_total_any_partial (fuel : Nat) (t : Val) (s : Str) (d : Val) :
       · cases hf
       · exact ⟨e, rfl, hm⟩
   · have h := (getCore_any fuel t s d false false).2
-    rw [C04_first_eq]
-    cases hc : getCore fuel t s d false false with
-    | mk t' res =>
-      rw [hc] at h
-      cases res with
-      | ok v => exact Or.inl ⟨_, rfl⟩
-      | error e =>
-        right
-        rcases h e rfl with ⟨hf, _⟩ | hm
-        · cases hf
-        · exact ⟨e, rfl, hm⟩
+    cases hc : (getCore fuel t s d false false).2 with
+    | ok v => exact Or.inl (first_ok_of_getCore fuel t s d v hc)
+    | error e =>
+      right
+      rcases h e hc with ⟨hf, _⟩ | hm
+      · cases hf
+      · exact ⟨e, (first_error_iff fuel t s d e).2 hc, hm⟩
 
 /-- **Item access raises only the allowed classes, every path and tree.** -/
 theorem C04_getitem_errclass_any_partial (fuel : Nat) (t : Val) (s : Str) (e : PyErr)
@@ -536,5 +538,94 @@ example : ¬ PlainTree starTree := by
   simp only [PlainTree, starTree, SafeKeys, SafeKeysK, and_true]
   intro h
   exact absurd (h.chars '*' (by simp)) (by decide)
+
+/-! ## fix C04-f: `first` hands the caller's default back as it is (`C04_first_default_identity`, `C04_first_hit`)
+
+Non-vacuity.  `dOne = ['D']` is a one-element list: before the fix `first` returned `'D'` for it on a miss. -/
+def dOne : Val := .list .plain [.str ['D']]
+
+-- plain missing key (KeyError of the raising lookup), a missing step below a dict (IndexError), an index out of
+-- range, a predicate that selects nothing, an ill-formed path: the default itself
+example : first 20 exTree ['z', 'z'] dOne = (exTree, .ok dOne) :=
+  C04_first_default_identity 20 exTree ['z', 'z'] dOne .KeyError (by decide) (by decide) (by decide)
+example : first 20 exTree ['a', '/', 'z'] dOne = (exTree, .ok dOne) :=
+  C04_first_default_identity 20 exTree ['a', '/', 'z'] dOne .IndexError (by decide) (by decide) (by decide)
+example : first 40 exTree2 ['r', '[', 'i', 'd', '=', '3', ']', '/', 'w'] (.list .plain [.none])
+    = (exTree2, .ok (.list .plain [.none])) :=
+  C04_first_default_identity 40 exTree2 _ _ .IndexError (by decide) (by decide +kernel) (by decide)
+example : first 40 exTree2 ['r', '[', '5', ']', '/', 'w'] (.list .plain [.list .plain []])
+    = (exTree2, .ok (.list .plain [.list .plain []])) := by decide +kernel
+example : first 40 exTree2 ['r', '[', ']', ']', '[', '/', '/', '='] dOne = (exTree2, .ok dOne) := by decide +kernel
+-- list root: a name on a list of records that none of them has, `''`, an index out of range
+example : first 40 (.list .n0 [.dict .n0 [(['a'], .int 1)]]) ['z', 'z'] dOne
+    = (.list .n0 [.dict .n0 [(['a'], .int 1)]], .ok dOne) := by decide +kernel
+example : first 40 (.list .n0 [.dict .n0 [(['a'], .int 1)]]) [] dOne
+    = (.list .n0 [.dict .n0 [(['a'], .int 1)]], .ok dOne) := by decide
+example : first 40 (.list .n0 [.dict .n0 [(['a'], .int 1)]]) ['[', '7', ']'] dOne
+    = (.list .n0 [.dict .n0 [(['a'], .int 1)]], .ok dOne) :=
+  C04_first_default_identity 40 _ ['[', '7', ']'] dOne .IndexError (by decide) (by decide +kernel) (by decide)
+-- `get` on the same misses returns the same default (it always did)
+example : XPath.get 20 exTree ['z', 'z'] dOne = (exTree, .ok dOne) := by decide
+-- a `?` prefix: `''` on a miss, as before the fix (that substitution happens inside `_get`)
+example : first 20 exTree ['?', 'z', 'z'] dOne = (exTree, .ok emptyStr) := by decide
+example : first 20 exTree ['?', 'a', '/', 'z'] dOne = (exTree, .ok emptyStr) := by decide
+-- a hit is still unwrapped — also when the found value equals the default
+example : first 40 exTree2 ['r', '[', 'i', 'd', '=', '2', ']', '/', 'w'] dOne = (exTree2, .ok (.str ['y'])) :=
+  C04_first_hit 40 exTree2 _ dOne (.str ['y']) (by decide) (by decide) (by decide +kernel)
+example : first 20 (.dict .n0 [(['a'], dOne)]) ['a'] dOne = (.dict .n0 [(['a'], dOne)], .ok (.str ['D'])) :=
+  C04_first_hit 20 _ ['a'] dOne dOne (by decide) (by decide) (by decide)
+example : first 40 exTree2 ['r', '[', '*', ']', '/', 'w'] dOne
+    = (exTree2, .ok (.list .n0 [.str ['x'], .str ['y']])) := by decide +kernel
+
+/-! ## fix C04-g: a `'..'` step that surfaces to the root as the LAST step of the path finds the root
+
+Before the fix the FOUND branch of `'..'` built the found text from the name of the node reached — the root has
+none (`str + None`): `TypeError`, so `d.get('a/..', 'D')` returned the default and `d['a/..']` raised although the
+path resolves (`d['x/../s']`, where the walk continues, always worked). -/
+
+/-- **`k/..` resolves to the root** (dict root, `k` a plain-name key that is present; every fuel ≥ 3, every default):
+item access, `get` and `first` return the root itself, the tree is unchanged. -/
+theorem C04_up_to_root (fuel : Nat) (cls : Cls) (kvs : List (Str × Val)) (k : Str) (c d : Val)
+    (hk : PlainKey k) (hl : lookup k kvs = some c) :
+    let t := Val.dict cls kvs
+    let xp := k ++ slash ++ ['.', '.']
+    getItem (fuel + 3) t xp = (t, .ok t) ∧ XPath.get (fuel + 3) t xp d = (t, .ok t) ∧ first (fuel + 3) t xp d = (t, .ok t) := by
+  refine ⟨upRoot_getCore fuel cls kvs k c _ true true hk hl, upRoot_getCore fuel cls kvs k c d false true hk hl, ?_⟩
+  exact first_of_found (fun d' => upRoot_getCore fuel cls kvs k c d' false false hk hl) d
+
+/-- the token-level fact behind it: `_find` reports the root the way an empty xpath does (parent = the root, no name,
+found text `/`) -/
+theorem C04_up_to_root_find (fuel : Nat) (cls : Cls) (kvs : List (Str × Val)) (k : Str) (c : Val) (rl : Bool)
+    (hk : PlainKey k) (hl : lookup k kvs = some c) :
+    findD (fuel + 3) (.dict cls kvs) [] false true [k, ['.', '.']] (.at []) rl slash
+      = .ok (.dict cls kvs, { parent := .at [], nameIdx := Option.none, value := .dict cls kvs, found := slash, notFound := Option.none }) :=
+  upRoot_find fuel cls kvs k c true rl hk hl
+
+-- non-vacuity: the theorem on `exTree` / `exTree2`, and the neighbouring shapes through the model
+example : XPath.get 20 exTree ['a', '/', '.', '.'] (.str ['D']) = (exTree, .ok exTree) :=
+  (C04_up_to_root 17 .n0 _ ['a'] _ (.str ['D']) ⟨by decide, by decide, by decide⟩ rfl).2.1
+example : getItem 40 exTree2 ['r', '[', '0', ']', '/', '.', '.'] = (exTree2, .ok exTree2) := by decide +kernel
+example : getItem 40 exTree2 ['r', '[', '0', ']', '/', 'w', '/', '.', '.', '/', '.', '.'] = (exTree2, .ok exTree2) := by decide +kernel
+-- below a selecting step the parent of every selected record is collected: the list holding the root
+example : getItem 40 exTree2 ['r', '[', 'i', 'd', '=', '2', ']', '/', '.', '.'] = (exTree2, .ok (.list .n0 [exTree2])) := by
+  decide +kernel
+example : getItem 40 exTree2 ['n', 'e', 'w', '/', '.', '.', '/', '.', '.'] = (exTree2, .ok exTree2) := by decide +kernel
+example : getItem 40 (.list .n0 [.dict .n0 [(['a'], .int 1)]]) ['[', '0', ']', '/', '.', '.']
+    = (.list .n0 [.dict .n0 [(['a'], .int 1)]], .ok (.list .n0 [.dict .n0 [(['a'], .int 1)]])) := by decide +kernel
+-- a `'..'` that does not reach the root is what it was: the parent node
+example : (getItem 40 exTree2 ['r', '[', '0', ']', '/', 'w', '/', '.', '.']).2
+    = .ok (.dict .n0 [(['i', 'd'], .str ['1']), (['w'], .str ['x'])]) := by decide +kernel
+-- assignment to the root through such a path is refused as `d['/'] = v` is (no name to store under)
+example : (setItem 20 exTree ['a', '/', '.', '.'] (.int 5)).2 = .error .TypeError := by decide
+
+/-- **finding C04-h (open)**: `'..'` directly below a scalar element reached by the list-side search (`n0list._find`:
+index steps only, from a list root) raises `TypeError` although the path resolves — here to the inner list `[5, 6]`;
+below a dict the same step works. -/
+theorem C04_up_below_list_scalar_cex :
+    getItem 40 (.list .n0 [.list .n0 [.int 5, .int 6]]) ['[', '0', ']', '[', '1', ']', '/', '.', '.']
+      = (.list .n0 [.list .n0 [.int 5, .int 6]], .error .TypeError) ∧
+    getItem 40 (.dict .n0 [(['b'], .list .n0 [.list .n0 [.int 5, .int 6]])]) ['b', '[', '0', ']', '[', '1', ']', '/', '.', '.']
+      = (.dict .n0 [(['b'], .list .n0 [.list .n0 [.int 5, .int 6]])], .ok (.list .n0 [.int 5, .int 6])) := by
+  constructor <;> decide +kernel
 
 end N0.C04
